@@ -23,6 +23,7 @@ import (
 
 	_ "github.com/tencent/goom/verifsim/worlds/concw"
 	_ "github.com/tencent/goom/verifsim/worlds/hist"
+	_ "github.com/tencent/goom/verifsim/worlds/spacew"
 	_ "github.com/tencent/goom/verifsim/worlds/ifacew"
 	_ "github.com/tencent/goom/verifsim/worlds/stubw"
 	_ "github.com/tencent/goom/verifsim/worlds/varw"
